@@ -687,6 +687,89 @@ func specDisplayHistories() seqmc.Spec {
 	}}
 }
 
+// specResubscribe: one client object used for several sessions (what
+// client.Reconnect does after every broken stream, and what an application
+// does when it re-subscribes): each session's responses are a sequence of <=2
+// over {update, sync, delete}; two and three sessions; once/poll/stream.
+// Oracle: no panic, and the LAST session behaves on the reused client exactly
+// as on a fresh client given the same responses (returned error, number of
+// notifications handed to the application).
+func specResubscribe() seqmc.Spec {
+	alpha := []respSpec{{"update", "a", "int1"}, {kind: "sync"}, {"delete", "a", ""}}
+	var segs [][]int
+	segs = append(segs, []int{})
+	for i := range alpha {
+		segs = append(segs, []int{i})
+		for j := range alpha {
+			segs = append(segs, []int{i, j})
+		}
+	}
+	types := []client.Type{client.Once, client.Poll, client.Stream}
+	var hist [][]int // indices into segs
+	for a := range segs {
+		for b := range segs {
+			hist = append(hist, []int{a, b})
+			for c := range segs {
+				if len(segs[a])+len(segs[b])+len(segs[c]) <= 4 {
+					hist = append(hist, []int{a, b, c})
+				}
+			}
+		}
+	}
+	n := len(hist) * len(types)
+	return seqmc.Spec{Name: fmt.Sprintf("re-subscribing one client object: %d histories of 2-3 sessions (each <=2 responses over update/sync/delete) x once/poll/stream, last session compared with a fresh client", len(hist)), N: n, Run: func(i int) (string, bool, []seqmc.Violation) {
+		qt := types[i%len(types)]
+		h := hist[i/len(types)]
+		var names []string
+		for _, si := range h {
+			var ns []string
+			for _, k := range segs[si] {
+				ns = append(ns, alpha[k].kind)
+			}
+			names = append(names, "["+strings.Join(ns, " ")+"]")
+		}
+		desc := fmt.Sprintf("sessions=%s type=%v on one client object", strings.Join(names, " then "), qt)
+		var vs []seqmc.Violation
+		var cur []*pb.SubscribeResponse
+		client.ResetRegisteredImpls()
+		client.RegisterTest("stub", func(ctx context.Context, d client.Destination) (client.Impl, error) {
+			conn, err := grpc.NewClient("passthrough:///none", grpc.WithTransportCredentials(insecure.NewCredentials()))
+			if err != nil {
+				return nil, err
+			}
+			return gclient.VerifNewClientWithStub(conn, &stub{resps: cur}), nil
+		})
+		session := func(c *client.CacheClient, si int) (string, int) {
+			cur = nil
+			for _, k := range segs[si] {
+				cur = append(cur, alpha[k].build())
+			}
+			seen := 0
+			q := client.Query{Addrs: []string{"x"}, Target: "t", Type: qt, Queries: []client.Path{{"*"}}, NotificationHandler: func(client.Notification) error { seen++; return nil }}
+			var err error
+			guard("client.Subscribe", &vs, func() string { return desc }, func() { err = c.Subscribe(context.Background(), q, "stub") })
+			if qt == client.Poll && err == nil && len(vs) == 0 {
+				guard("client.Poll", &vs, func() string { return desc }, func() { err = c.Poll() })
+			}
+			return fmt.Sprint(err), seen
+		}
+		reused := client.New()
+		var gotErr string
+		var gotSeen int
+		for _, si := range h {
+			gotErr, gotSeen = session(reused, si)
+			if len(vs) > 0 {
+				return desc, true, vs
+			}
+		}
+		wantErr, wantSeen := session(client.New(), h[len(h)-1])
+		if len(vs) == 0 && (gotErr != wantErr || gotSeen != wantSeen) {
+			vs = append(vs, seqmc.Violation{Class: "resubscribed-client-differs", Msg: fmt.Sprintf("%s: the last session on the reused client ended with %q after %d notifications; the same responses on a fresh client: %q after %d", desc, gotErr, gotSeen, wantErr, wantSeen)})
+		}
+		return desc, gotSeen > 0, vs
+	}}
+}
+
 type harness struct{}
 
 func (harness) Property() string { return "C12" }
@@ -698,6 +781,7 @@ func (harness) Specs(tier string) []seqmc.Spec {
 			specMetaRegistry(),
 			specDisplay(2),
 			specDisplayHistories(),
+		specResubscribe(),
 		}
 	}
 	return []seqmc.Spec{
@@ -706,6 +790,7 @@ func (harness) Specs(tier string) []seqmc.Spec {
 		specMetaRegistry(),
 		specDisplay(2),
 		specDisplayHistories(),
+		specResubscribe(),
 	}
 }
 
